@@ -7,7 +7,7 @@ from . import base
 
 TRUSTED_BASE = base.TRUSTED_BASE
 ASSUMPTIONS = base.ASSUMPTIONS + ['identity of the returned object with `out`, and freshness/config of `out_like` results, are observed directly on the implementation (no theorem)',
-                                  'constants with op_input_size="best" are covered once the inferred constant format is modelled (C06); here op_input_size="same"']
+                                  'constants are converted with op_input_size="same" (like the Fxp operand) or "best" (inferred sizes, C06 model, default config)']
 RULE = ('AR (policies same/largest/smallest/optimal), AO (explicit out / out_like targets, function and config routes), AC (constant operand on either side, const_op_sizing in 4 policies), UN (neg/pos/abs): '
         'operand formats n_word 2..12, 0<=n_frac<=n_word-sign, all 10 modes on the governing config and a different config on the other operand, raw and repr methods; exhaustive codes for formats <=3 (quick) / <=5 (thorough) bits; '
         'non-trivial = the exact result is not representable in the target (rounding or overflow acted) or the target differs from both operand formats')
@@ -73,7 +73,7 @@ def generate(tier, rng):
             # dyadic constant near x's range
             lo, hi = lims(x[0], x[1])
             c = Fraction(rng.choice([rng.randint(4 * lo - 8, 4 * hi + 8), rng.randint(-12, 12), 4 * rng.randint(lo, hi)]), 4) / Fraction(2) ** x[2]
-            yield 'AC %s %s same %s %s %s %s %s %s %s' % (op, rng.choice(['l', 'r']), rng.choice(POLS), meth, fm(x), r, o, L(a), tok_frac(c))
+            yield 'AC %s %s %s %s %s %s %s %s %s %s' % (op, rng.choice(['l', 'r']), rng.choice(['same', 'best']), rng.choice(POLS), meth, fm(x), r, o, L(a), tok_frac(c))
         else:
             yield 'UN %s %s %s' % (rng.choice(['neg', 'pos', 'abs']), fm(x), L(a))
     for x in small:
